@@ -91,8 +91,7 @@ def cases(ctx):
             yield Case(f'b58_accept {np(ty, net)} {sh(m)}', 'ms', nontrivial=True, tag='reject-' + kind)
     # addresses from public keys
     from bitcoinutils.keys import PrivateKey
-    for _ in range(ctx.n(25, 800)):
-        d = rng.randrange(1, 2 ** 255)
+    for d in [d for _, d in G.telling_secrets()] + [rng.randrange(1, 2 ** 255) for _ in range(ctx.n(25, 800))]:
         pub = PrivateKey(secret_exponent=d).get_public_key().to_bytes()
         net = rng.choice(NETS)
         for c in rng.choice([(1, 0), (0, 1), (1, 0, 1)]):
